@@ -288,10 +288,45 @@ def conc(v):
     return v.value() if isinstance(v, BV) else int(v)
 
 
+def mk_add(terms):
+    """n-ary exact integer sum: nested sums flattened, constants folded, operands sorted"""
+    flat, c = [], 0
+    for t in terms:
+        if t[0] == 'add':
+            sub = t[1:]
+        else:
+            sub = (t,)
+        for x in sub:
+            if x[0] == 'const':
+                c += x[1]
+            else:
+                flat.append(x)
+    if c:
+        flat.append(('const', c))
+    if not flat:
+        return ('const', 0)
+    if len(flat) == 1:
+        return flat[0]
+    return ('add',) + tuple(sorted(flat, key=_key))
+
+
+def _strip(k, t):
+    """t modulo 2^k does not depend on reductions modulo 2^m (m >= k) applied to its addends"""
+    if t[0] == 'mod' and t[1] >= k:
+        return _strip(k, t[2])
+    if t[0] == 'add':
+        return mk_add([_strip(k, x) for x in t[1:]])
+    if t[0] == 'sub':
+        return ('sub', _strip(k, t[1]), _strip(k, t[2]))
+    if t[0] == 'shlc' and t[1] < k:
+        return ('shlc', t[1], _strip(k - t[1], t[2]))
+    if t[0] == 'const':
+        return ('const', t[1] % (1 << k))
+    return t
+
+
 def mk_mod(k, t):
-    while t[0] == 'mod' and t[1] >= k:
-        t = t[2]
-    return ('mod', k, t)
+    return ('mod', k, _strip(k, t))
 
 
 def comm(op, a, b):
@@ -347,7 +382,7 @@ def binop(op, a, b, where=''):
             return Sym(tb, n, ub_)
         if tb == ('const', 0):
             return Sym(ta, n, ua)
-        t = comm('add', ta, tb)
+        t = mk_add([ta, tb])
         u = max(ua, ub_) + 1
         return Sym(t, n, u) if u <= n else Sym(mk_mod(n, t), n, n)
     if op == 'sub':
@@ -587,10 +622,9 @@ def explore(cube, run, limit=4096):
 # ---------------------------------------------------------------------------
 # the interpreter
 _BUILTINS = {'sext', 'zext', 'concat', 'int', 'range', 'len', 'trunc', 'mk_bits', 'print', 'str', 'isinstance', 'slice',
-             'hex', 'clog2'}
+             'hex', 'clog2', 'reduce'}
 _BINOPS = {ast.Add: 'add', ast.Sub: 'sub', ast.BitAnd: 'and', ast.BitOr: 'or', ast.BitXor: 'xor',
            ast.LShift: 'shl', ast.RShift: 'shr', ast.Mult: 'mul', ast.FloorDiv: 'floordiv', ast.Mod: 'mod'}
-_modconst_cache = {}
 
 
 def resolve_name(repo, mod, name, _seen=None):
@@ -667,7 +701,8 @@ class Interp:
         raise AnalysisError(f"unbound name `{name}` in {self.mod.rel}")
 
     def modconst(self, mod, name):
-        key = (id(self.repo), mod.rel, name)
+        _modconst_cache = self.repo.__dict__.setdefault('_c20_modconst', {})   # per Repo object (overlay-safe)
+        key = (mod.rel, name)
         if key in _modconst_cache:
             return _modconst_cache[key]
         r = resolve_name(self.repo, mod, name)
@@ -824,6 +859,21 @@ class Interp:
         op = _BINOPS.get(type(e.op))
         if op is None:
             raise AnalysisError(f"operator outside the abstract domain: {norm(e)}")
+        if op == 'and':
+            # a & b with one side a constant zero vector is zero whatever the other side is (the blocks have no
+            # side effects): avoids case splits on instruction bits that cannot matter
+            def zero(v):
+                return isinstance(v, BV) and v.concrete() and v.value() == 0
+            try:
+                left = self.ev(e.left)
+            except Undetermined:
+                right = self.ev(e.right)
+                if zero(right):
+                    return right
+                raise
+            if zero(left):
+                return left
+            return binop(op, left, self.ev(e.right), f"in {norm(e)[:60]}")
         return binop(op, self.ev(e.left), self.ev(e.right), f"in {norm(e)[:60]}")
 
     def ev_UnaryOp(self, e):
@@ -859,20 +909,22 @@ class Interp:
         left = self.ev(e.left)
         result = True
         bits = isinstance(left, (BV, Sym))
+        syms = []
         for op, rt in zip(e.ops, e.comparators):
             right = self.ev(rt)
             bits = bits or isinstance(right, (BV, Sym))
             r = self.compare(op, left, right, e)
             if isinstance(r, Sym):
-                if len(e.ops) != 1:
-                    raise AnalysisError(f"chained comparison on symbolic data: {norm(e)}")
-                return r
-            if isinstance(r, BV):
-                r = bool(r.value())
-            if not r:
-                result = False
-                break
+                syms.append(r.term)
+            else:
+                if isinstance(r, BV):
+                    r = bool(r.value())
+                if not r:
+                    result = False
+                    break
             left = right
+        if result and syms:
+            return Sym(syms[0], 1) if len(syms) == 1 else Sym(('all',) + tuple(syms), 1)
         return BV.const(int(result), 1) if bits else result
 
     def compare(self, op, a, b, e):
@@ -896,6 +948,9 @@ class Interp:
         name = {ast.Lt: 'lt', ast.LtE: 'le', ast.Gt: 'gt', ast.GtE: 'ge'}.get(type(op))
         if name is None:
             raise AnalysisError(f"comparison outside the abstract domain {where}")
+        if isinstance(a, IntSym) or isinstance(b, IntSym):
+            return Sym(('intcmp', name, repr(a) if not isinstance(a, IntSym) else a.tag,
+                        repr(b) if not isinstance(b, IntSym) else b.tag), 1)
         if isinstance(a, (int, bool)) and isinstance(b, (int, bool)):
             import operator
             return {'lt': operator.lt, 'le': operator.le, 'gt': operator.gt, 'ge': operator.ge}[name](a, b)
@@ -1048,6 +1103,14 @@ class Interp:
             raise AnalysisError(f"int() of {v!r} {where}")
         if name in ('print', 'str', 'hex'):
             return '<str>'
+        if name == 'reduce' and len(args) == 2:
+            items = self.iterate(args[1])
+            if not items:
+                raise Raised('TypeError')
+            acc = items[0]
+            for x in items[1:]:
+                acc = self.call(args[0], [acc, x], {})
+            return acc
         raise AnalysisError(f"builtin {name} outside the abstract domain {where}")
 
     def call_func(self, f, args, kwargs):
@@ -1229,12 +1292,14 @@ class Interp:
 
 
 def _as_load(t):
-    import copy
-    t = copy.deepcopy(t)
-    for n in ast.walk(t):
-        if hasattr(n, 'ctx'):
-            n.ctx = ast.Load()
-    return t
+    """the target expression re-read as a value (a shallow rebuild: the nodes carry parent links)"""
+    if isinstance(t, ast.Name):
+        return ast.Name(id=t.id, ctx=ast.Load())
+    if isinstance(t, ast.Attribute):
+        return ast.Attribute(value=_as_load(t.value), attr=t.attr, ctx=ast.Load())
+    if isinstance(t, ast.Subscript):
+        return ast.Subscript(value=_as_load(t.value), slice=t.slice, ctx=ast.Load())
+    raise AnalysisError(f"augmented-assignment target outside the abstract domain: {norm(t)}")
 
 
 # ---------------------------------------------------------------------------
@@ -1472,8 +1537,7 @@ class Design:
             if isinstance(p, tuple):
                 k = p[1]
                 if k < 0:
-                    local = name[len(info.path) + 1:] if info.path and base_is_self else name
-                    ln = info.lists.get(local.lstrip('.'))
+                    ln = info.lists.get(name.lstrip('.')) if base_is_self else None
                     if ln is None:
                         raise AnalysisError(f"negative index into a list of unknown length: {norm(e)}")
                     k += ln
